@@ -58,7 +58,7 @@ def keysets_for(backend):
         return ['str', 'alias-dash', 'dash', 'prefixy', 'keymap-hash', 'keymap-str', 'long']   # JSON object keys are strings
     if base == 'dir-py':
         # the import-based reader needs K_<key> to be a module name: identifier-like strings only
-        return ['str', 'alias-dash', 'prefixy-id', 'keymap-hash']
+        return ['str', 'alias-dash', 'dash', 'prefixy-id', 'keymap-hash']
     if base.startswith('sql'):
         return ['str', 'alias-int-str', 'alias-dash', 'dash', 'prefixy', 'int', 'keymap-pickle', 'keymap-hash', 'keymap-str', 'long']
     return ['str', 'alias-int-str', 'alias-dash', 'dash', 'prefixy', 'tuple', 'int', 'keymap-pickle', 'keymap-hash', 'keymap-str', 'keymap-raw', 'long']
